@@ -15,4 +15,12 @@ __CPROVER_requires(1)
 __CPROVER_assigns()
 __CPROVER_ensures(vf_dbits(__CPROVER_return_value) == __CPROVER_uninterpreted_sin(vf_dbits(x)))
 ;
+#ifdef VF_FABS_CONTRACT
+/* fabs: exactly the IEEE operation (sign bit cleared); ASSUMED for libm's fabs */
+double fabs(double x)
+__CPROVER_requires(1)
+__CPROVER_assigns()
+__CPROVER_ensures(vf_dbits(__CPROVER_return_value) == (vf_dbits(x) & 0x7FFFFFFFFFFFFFFFUL))
+;
+#endif
 #endif
